@@ -17,11 +17,12 @@ LEVEL = 'exploration'
 SHARDS = {'quick': 4, 'thorough': 16}
 TIMEOUT = {'quick': 300, 'thorough': 3000}
 MAXN = {'quick': 5, 'thorough': 7}
+N_LONGTAIL = {'quick': 60, 'thorough': 8000}    # scale regime: 110-260 requests after completion, execute(n) with n up to 1000
 N_RANDOM = {'quick': 1500, 'thorough': 400000}
 RULE = ('cases: (a) exhaustive: n in 1..N systems x priority pattern (distinct / ties / all equal) x completer position x completion '
         'timestep {0,1,3} (+ completion from outside between steps), each followed by a seeded tail of 5-30 requests from '
         '{execute(), execute(n), execute_systems(), execute_systems(True), add_system, remove_system, complete()}; (b) random: windows '
-        '(start/frequency) so that lower-ordered systems are due or not in the completing step; (c) batch drivers with completion '
+        '(start/frequency) so that lower-ordered systems are due or not in the completing step; (d) long tails: 110-260 requests after completion incl. execute(n) with n up to 1000, on models whose systems are idle at that timestep or that have no systems; (c) batch drivers with completion '
         'below/at/above max_timesteps. Oracle: systems ordered before the completer ran in the completing step, those after did '
         'not; after completion no execution is ever logged, clocks and the full model state are identical before and after every '
         'advance request, execute_systems(True) raises ModelCompleteError, is_running() and bool(model) stay False. Non-trivial: '
@@ -31,7 +32,7 @@ ASSUMPTIONS = ['the clock value right after the completing step is not prescribe
 FLOORS = {'quick': {'completions_mid_step': 910, 'completions_outside': 75, 'later_system_due_in_completing_step': 500,
                     'tail_execute': 2000, 'tail_execute_n': 2000, 'tail_execute_systems': 2000, 'tail_throw': 2000,
                     'model_complete_errors': 2000, 'tail_add': 1000, 'tail_remove': 500, 'batch_driver_runs': 20,
-                    'pos_first': 100, 'pos_middle': 100, 'pos_last': 100, 'multi_step_past_completion': 200,
+                    'pos_first': 100, 'pos_middle': 100, 'pos_last': 100, 'multi_step_past_completion': 200, 'long_tails': 30, 'long_requests_after_completion': 1000,
                     'reach:Core.Model.complete': 1500, 'reach:Core.SystemManager.execute_systems': 10000},
           'thorough': {'completions_mid_step': 60000, 'model_complete_errors': 100000}}
 EXHAUSTIVE = {}
@@ -246,8 +247,66 @@ def case_batch(ctx, case):
     ctx.distinct(('batch', tc))
 
 
+
+def case_long_tail(ctx, case):
+    """Scale regime: a completed model receives HUNDREDS of later requests, among them very long execute(n) calls, while its systems are
+    idle at the timestep where completion left it (frequency > 1, later start, expired end) or while it has no systems at all."""
+    rng = ctx.rng('longtail', case['i'])
+    core, collectors, Logger = fixtures()
+    model = core.Model()
+    log = []
+    style = rng.choice(['idle', 'idle', 'mixed', 'empty'])
+    if style != 'empty':
+        for j in range(rng.randint(1, 4)):
+            kw = dict(priority=rng.randint(-2, 2))
+            if style == 'idle' or rng.random() < 0.5:
+                kw.update(rng.choice([dict(frequency=rng.randint(7, 90)), dict(start=rng.randint(500, 5000)), dict(end=rng.randint(0, 3))]))
+            model.systems.add_system(Logger(f's{j}', model, log, **kw))
+    tc = rng.randint(0, 9)
+    how = rng.choice(['system', 'outside'])
+    if how == 'system':
+        model.systems.add_system(Logger('completer', model, log, when=tc, priority=rng.randint(-3, 3)))
+        n_req = tc + 1 + rng.choice([0, 0, 70, 150, 400])          # the completing request itself may run far past the completion
+        model.execute(n_req)
+        twin = core.Model()
+        tlog = []
+        for sid, s0 in model.systems.systems.items():
+            twin.systems.add_system(Logger(sid, twin, tlog, when=s0.when, priority=s0.priority, frequency=s0.frequency, start=s0.start, end=s0.end))
+        for _ in range(n_req):
+            twin.execute()
+        check((model.timestep, log) == (twin.timestep, tlog), f'execute({n_req}) with completion at step {tc} differs from {n_req} single steps',
+              clock_multi=model.timestep, clock_single=twin.timestep)
+    else:
+        for _ in range(tc):
+            model.execute()
+        model.complete()
+    clock, n_log = model.timestep, len(log)
+    for k in range(rng.choice([110, 160, 260])):
+        req = rng.choice(['execute', 'execute_systems', 'throw', 'throw', 'long', 'long'])
+        if req == 'execute':
+            model.execute()
+        elif req == 'execute_systems':
+            model.systems.execute_systems()
+        elif req == 'long':
+            model.execute(rng.choice([64, 65, 100, 129, 300, 1000]))
+            ctx.count('long_requests_after_completion')
+        else:
+            expect_raises(core.ModelCompleteError, f'execute_systems(throw_error=True), request #{k + 1} after completion',
+                          model.systems.execute_systems, True, exact=True)
+            ctx.count('model_complete_errors')
+        ctx.ev()
+        if (model.timestep, model.systems.timestep, len(log)) != (clock, clock, n_log):
+            raise CaseViolation(f'request #{k + 1} after completion ({req}) moved the clock or ran a system', clock_before=clock,
+                                clock_after=(model.timestep, model.systems.timestep), ran=log[n_log:][:5], style=style)
+        check(model.is_running() is False and bool(model) is False, 'model reports running again')
+    ctx.count('long_tails')
+    ctx.distinct(('longtail', style, how, tc, case['i']))
+    if case['i'] < 1:
+        ctx.sample({'kind': 'long tail', 'systems': style, 'completed_by': how, 'at': tc})
+
+
 def run_case(ctx, case):
-    {'ex': case_ex, 'out': case_outside, 'rand': case_rand, 'batch': case_batch}[case['kind']](ctx, case)
+    {'ex': case_ex, 'out': case_outside, 'rand': case_rand, 'batch': case_batch, 'longtail': case_long_tail}[case['kind']](ctx, case)
 
 
 def patterns(n):
@@ -277,6 +336,9 @@ def run(ctx):
     for i in range(8 if ctx.tier == 'quick' else 200):
         if ctx.mine(i) and not ctx.full():
             ctx.run_case({'kind': 'batch', 'i': i}, run_case)
+    for i in range(N_LONGTAIL[ctx.tier]):
+        if ctx.mine(i) and not ctx.full():
+            ctx.run_case({'kind': 'longtail', 'i': i}, run_case)
 
 
 def replay(ctx, case):
